@@ -68,15 +68,6 @@ SjCtx(t) ==
 (***************************************************************************)
 (* the empty rewrite                                                       *)
 (***************************************************************************)
-ExtDiag(a, b) ==
-  IF a.syms # b.syms THEN "symbols"
-  ELSE IF a.edges # b.edges THEN "cfg"
-  ELSE IF a.fns # b.fns THEN "function_tables"
-  ELSE IF a.secs # b.secs THEN "sections"
-  ELSE IF a.entry # b.entry \/ a.nproxy # b.nproxy THEN "entry_or_proxies"
-  ELSE IF Range(b.aux) # Range(a.aux) \cup {"leafFunctions"} THEN "aux_tables"
-  ELSE "ok"
-
 ApplyCtx(t) ==
   LET nop == NopOf(t)
       dom == /\ HasIv(t.pre, 100) /\ HasIv(t.pre, 200) /\ Len(t.pre.ivs) = 2
@@ -89,10 +80,7 @@ ApplyCtx(t) ==
       post1 == IF shape THEN [ivs |-> <<IvById(t.post, 100)>>, items |-> t.post.items, al |-> t.post.al] ELSE st0
       ed == IF ~done THEN "-"
             ELSE IF ~shape THEN "intervals"
-            ELSE IF IvById(t.post, 200) # IvById(t.pre, 200) THEN "other_interval"
-            ELSE IF ExtDiag(t.prex, t.postx) # "ok" THEN ExtDiag(t.prex, t.postx)
-            ELSE IF Invertible(st0) THEN InvertDiag(st0, post1)
-            ELSE "ok"
+            ELSE EmptyApplyDiag(st0, post1, IvById(t.pre, 200), IvById(t.post, 200), t.prex, t.postx)
       pl == IF dom /\ legalExc /\ (t.exc = "" => shape)
             THEN \E order \in Orders(st0.ivs[1].blocks) :
                     PaddingLegal(SplitSpec(st0, order, DefaultTables), post1, 100, t.exc, nop, DefaultTables)
